@@ -227,3 +227,60 @@ func c16MSM377(rep *Report, rng *RNG) {
 		}
 	}
 }
+
+// ---- emulated BLS12-381: a G2 point selected by MuxG2 among points carrying precomputed lines must pair like the selected point
+type muxG2Circuit struct {
+	P   sw_bls12381.G1Affine
+	Q   [3]sw_bls12381.G2Affine
+	Sel frontend.Variable
+	R   sw_bls12381.GTEl `gnark:",public"`
+}
+
+func (c *muxG2Circuit) Define(api frontend.API) error {
+	pr, err := sw_bls12381.NewPairing(api)
+	if err != nil {
+		return err
+	}
+	q := pr.MuxG2(c.Sel, &c.Q[0], &c.Q[1], &c.Q[2])
+	res, err := pr.Pair([]*sw_bls12381.G1Affine{&c.P}, []*sw_bls12381.G2Affine{q})
+	if err != nil {
+		return err
+	}
+	pr.AssertIsEqual(res, &c.R)
+	return nil
+}
+
+func c16MuxG2(rep *Report, rng *RNG, thorough bool) {
+	_, _, g1, g2 := bls12381.Generators()
+	var p bls12381.G1Affine
+	p.ScalarMultiplication(&g1, big.NewInt(4242))
+	var qs [3]bls12381.G2Affine
+	for i := range qs {
+		qs[i].ScalarMultiplication(&g2, big.NewInt(int64(1000+7*i)))
+	}
+	sels := []int{2}
+	if thorough {
+		sels = []int{0, 1, 2}
+	}
+	for _, sel := range sels {
+		want, err := bls12381.Pair([]bls12381.G1Affine{p}, []bls12381.G2Affine{qs[sel]})
+		if err != nil {
+			rep.Fail("harness:pair381", err.Error(), nil)
+			return
+		}
+		tmpl := &muxG2Circuit{}
+		asg := &muxG2Circuit{P: sw_bls12381.NewG1Affine(p), Sel: sel, R: sw_bls12381.NewGTEl(want)}
+		for i := range qs {
+			tmpl.Q[i] = sw_bls12381.NewG2AffineFixedPlaceholder()
+			asg.Q[i] = sw_bls12381.NewG2AffineFixed(qs[i])
+		}
+		var serr error
+		pm := catchPanic(func() { serr = test.IsSolved(tmpl, asg, ecc.BN254.ScalarField()) })
+		name := fmt.Sprintf("sw_bls12381.Pair(P, MuxG2(sel=%d, three points with precomputed lines))", sel)
+		rep.Eval("muxg2|"+name, true)
+		rep.Count("muxg2-fixed-lines")
+		if pm != "" || serr != nil {
+			rep.Fail("c16:differs-from-native:muxg2-lines", name+" differs from the native pairing with the selected point: "+pm+shortErr(serr), c16Desc{Curve: "bls12-381 (emulated)", Op: "MuxG2+Pair", Class: name})
+		}
+	}
+}
